@@ -5,6 +5,59 @@ from harness import scratch, tlc, evidence, pool
 PID = "C07"
 
 
+def _main_rows(r, s, cases, kmax):
+    """The rows test_all_Fisher.main writes (what the later stages and the user read), not only convert_params' return value: every
+    curvature-regular decision input is realised as a one-function library + the fit stage's output file, the real main runs on it and
+    the written row is judged by the same SnapJudge relation.  'pole' realises the inputs whose zero patterns make the likelihood infinite
+    with a real function string (a1*x + 1/a0) instead of a likelihood wrapper."""
+    mc = []
+    for c in cases:
+        if all(x == "pos" for x in c["curv"]) and not c["bad"] and c.get("scale", 1.0) == 1.0:
+            mc.append({"k": c["k"], "small": c["small"], "tie": c["tie"], "curv": c["curv"], "bad": [], "tmpl": "lin"})
+    for small in ([], [1], [2], [1, 2]):
+        for tie in ([], [1], [2]):
+            if set(tie) & set(small):
+                continue
+            cand = sorted(set(small) | set(tie))
+            bad = [list(z) for z in ([[1]] if 1 in cand and 2 not in cand else [[1], [1, 2]] if 1 in cand else [])]
+            mc.append({"k": 2, "small": small, "tie": tie, "curv": ["pos", "pos"], "bad": bad, "tmpl": "pole"})
+    for n, c in enumerate(mc):
+        c["id"] = n
+    args = []
+    for j, ch in enumerate(pool.chunk(mc, 8)):
+        tp, op = os.path.join(s, "c07m_in_%d.json" % j), os.path.join(s, "c07m_out_%d.json" % j)
+        json.dump(ch, open(tp, "w"))
+        args.append((tp, op, os.path.join(s, "c07m_w_%d" % j)))
+    out = pool.parallel("harness.targets:fisher_main_batch", args, s, timeout=3000)
+    obs = {}
+    for (rc, tail), a in zip(out, args):
+        if rc != 0:
+            raise RuntimeError("fisher main batch worker failed: " + tail)
+        for x in json.load(open(a[1])):
+            obs[x["id"]] = x
+    judged, meta = [], []
+    for c in mc:
+        o = obs[c["id"]]
+        tag = "fisher_main:%s:k%d:small%s:tie%s" % (c["tmpl"], c["k"], c["small"], c["tie"])
+        if "raised" in o:
+            r.violation(tag + ":raised", "test_all_Fisher.main raised %s on case %s" % (o["raised"], c), {"case": c})
+            continue
+        judged.append({"id": len(judged), "k": c["k"], "small": c["small"], "tie": c["tie"], "curv": c["curv"], "bad": c["bad"],
+                       "len": o["len"], "zeros": o["zeros"], "formula": o["formula"], "nllok": o["nllok"] and o["params_are_ml_or_zero"]})
+        meta.append((c, o, tag))
+        if not o["hessian_ok"]:
+            r.violation(tag + ":hessian_row", "derivs file row is not the observed Fisher matrix (upper triangle) of the kept parameters\n  case %s\n  observed %s" % (c, o), {"case": c, "observed": o})
+        if not o["free_row_ok"]:
+            r.violation(tag + ":parameter_free_row", "the parameter-free function 'x' of the same library must get parameter code 0, its own likelihood and zero parameters\n  case %s" % c, {"case": c, "observed": o})
+    jres, failed = tlc.judge("SnapJudge", judged)
+    r.add_tlc(jres, "snap_judge_main_rows")
+    for i, cl in sorted(failed.items()):
+        c, o, tag = meta[i]
+        r.violation(tag + ":" + ",".join(cl), "the row written by test_all_Fisher.main violates Snap clauses %s\n  case %s\n  observed %s" % (cl, c, o), {"case": c, "observed": o})
+    r.add("main_rows", evaluations=len(judged), nontrivial=sum(1 for c, o, _ in meta if c["small"] or c["tie"]), traces=len(judged),
+          pole_cases=sum(1 for c in mc if c["tmpl"] == "pole"))
+
+
 def run(tier, replay=None):
     r = evidence.Run(PID, tier, "model_checking")
     s = scratch.make()
@@ -71,13 +124,15 @@ def run(tier, replay=None):
             key += ":bad%s" % c["bad"]
         r.violation(key,
                     "convert_params violates Snap clauses %s\n  case %s\n  observed %s" % (cl, c, o), {"case": c, "observed": o})
+    _main_rows(r, s, cases, kmax)
     nontriv = sum(1 for c, o in meta if c["small"] or c["tie"] or any(x != "pos" for x in c["curv"]))
     r.add("cases", evaluations=len(judged), nontrivial=nontriv, traces=len(judged), kmax=kmax)
     for c, o in meta[5:8]:
         r.sample({"case": {k: c[k] for k in ("k", "small", "tie", "curv", "bad")}, "observed": {k: o.get(k) for k in ("len", "zeros", "codelen", "expect", "nllok")}})
     r.cov["rule"] = ("every decision input of Snap.tla with k <= %d (small set, one curvature defect at most, set of zero patterns with infinite likelihood) plus "
                      "threshold ties; each is realised by an exactly solvable linear Gaussian model (known Hessian, ML point = chosen theta) and a likelihood "
-                     "wrapper; the real test_all_Fisher.convert_params is called and SnapJudge decides the outcome; non-trivial = cases with a small or tied "
+                     "wrapper; the real test_all_Fisher.convert_params is called and SnapJudge decides the outcome; the curvature-regular inputs are also run through "
+                     "the real test_all_Fisher.main on a one-function library and the written rows judged; non-trivial = cases with a small or tied "
                      "parameter or a curvature defect" % kmax)
     r.assumptions += ["P5: Hessian of a linear Gaussian model is Phi^T Phi / sigma^2 exactly; numdifftools reproduces it to 1e-5 in the length",
                       "quick tier samples the curvature-defect cases (seeded); thorough is exhaustive"]
